@@ -50,7 +50,7 @@ func serverSeeds(f *testing.F) {
 		"PUT / HTTP/1.1\r\nHost: h\r\nExpect: 100-continue\r\nContent-Length: 3\r\n\r\nabc",
 		"HEAD / HTTP/1.0\r\nConnection: keep-alive\r\n\r\n",
 		"GET / HTTP/1.1\r\nHost: h\r\nX: a\r\n b\r\n\r\n",
-		"POST / HTTP/1.1\r\nHost: h\r\nContent-Type: multipart/form-data; boundary=b\r\nContent-Length: 44\r\n\r\n--b\r\nContent-Disposition: form-data; name=\"a\"\r\n\r\nv\r\n--b--\r\n",
+		"POST / HTTP/1.1\r\nHost: h\r\nContent-Type: multipart/form-data; boundary=b\r\nContent-Length: 59\r\n\r\n--b\r\nContent-Disposition: form-data; name=\"a\"\r\n\r\nv\r\n--b--\r\n",
 	} {
 		f.Add([]byte(s), false, uint16(0))
 		f.Add([]byte(s), true, uint16(9))
